@@ -33,8 +33,20 @@ def shards(tier, seed):
     return [{'idx': i, 'n': N_EXAMPLES[tier]} for i in range(16)]
 
 
-LEAF = st.one_of(specs.double_spec(), specs.int_spec(), specs.scaled_spec(), specs.enum_spec(), specs.string_spec(),
-                 st.just({'k': 'bool'}))
+_SIMPLE = st.one_of(specs.double_spec(), specs.int_spec(), specs.scaled_spec(), specs.enum_spec(), specs.string_spec(),
+                    st.just({'k': 'bool'}))
+# arrays of simple types: datatype properties set on the array are passed on to the member type
+LEAF = st.one_of(_SIMPLE, _SIMPLE, _SIMPLE,
+                 st.one_of(specs.double_spec(), specs.int_spec()).map(lambda t: {'k': 'array', 'of': t, 'min': 0, 'max': 3}),
+                 st.one_of(specs.double_spec(), specs.int_spec()).map(
+                     lambda t: {'k': 'array', 'of': {'k': 'array', 'of': t, 'min': 0, 'max': 2}, 'min': 0, 'max': 2}))
+
+
+def numeric_leaf(T):
+    """the double/int type a 'max' property ends up in (the type itself or the innermost member of arrays)"""
+    while T['k'] == 'array':
+        T = T['of']
+    return T if T['k'] in ('double', 'int') else None
 
 
 @st.composite
@@ -95,7 +107,7 @@ def program(draw):
             how = draw(st.sampled_from(['value', 'max', 'description']))
             if how == 'value':
                 cfg[pn] = {'value': draw(specs.valid_value(T))}
-            elif how == 'max' and T['k'] in ('double', 'int'):
+            elif how == 'max' and numeric_leaf(T):
                 cfg[pn] = {'max': draw(st.sampled_from([3, 50, 1000]))}
             else:
                 cfg[pn] = {'description': f'configured for i{i}'}
@@ -121,9 +133,9 @@ def partial_override(draw, T, kind=None):
     elif kind == 'readonly':
         o['value'] = draw(st.booleans())
     elif kind == 'dtprop':
-        if T['k'] == 'double' and draw(st.booleans()):
+        if numeric_leaf(T) and numeric_leaf(T)['k'] == 'double' and draw(st.booleans()):
             o['prop'], o['value'] = 'unit', draw(st.sampled_from(['K', 'mm']))
-        elif T['k'] in ('double', 'int'):
+        elif numeric_leaf(T):
             o['prop'], o['value'] = 'max', draw(st.sampled_from([2, 77, 5000]))
         elif T['k'] == 'string':
             o['prop'], o['value'] = 'maxchars', max(T['min'], draw(st.sampled_from([2, 20])))
@@ -250,6 +262,10 @@ def probes_for(dt):
         return ['', 'a', 'ab', 'abc', 'x' * 10, 'x' * 21, 'ä', 5]
     if kind == 'EnumType':
         return list(range(-6, 8)) + [100, 300, 'off', 'on', 'grown']
+    if kind == 'ArrayOf':
+        inner = [[v] for v in (-1e9, -1, 0, 1, 2, 3, 50, 77, 1000, 5000, 1e9)] if type(dt.members).__name__ != 'ArrayOf' else \
+            [[[v]] for v in (-1e9, -1, 0, 1, 2, 3, 50, 77, 1000, 5000, 1e9)]
+        return [[], [1, 2], [1, 2, 3, 4], 'x', 5] + inner
     return [True, False, 0, 1, 2, 'x']
 
 
